@@ -196,7 +196,7 @@ def main():
                     if len(details) < 10:
                         details.append({"contract": c.name, "engine": {"exc": ev["exc"], "result": ev["result"]},
                                         "native": {"exc": nv["exc"], "result": nv["result"]}, "view_diff": diff[:6],
-                                        "inputs": {k: v for k, v in m.items() if not isinstance(v, list)}})
+                                        "inputs": dict([(k, v) for k, v in m.items() if not isinstance(v, list) and v not in (0, False)][:40])})
     print(json.dumps({"property": prop, "differential_runs": runs, "disagreements": disagreements, "skipped": skipped, "details": details}, default=str))
     return 1 if disagreements else 0
 
